@@ -59,8 +59,23 @@ func gen(seed int64, tier string) Scenario {
 	if tier == "thorough" {
 		n += r.Intn(16)
 	}
+	ladderAt := -1
+	if r.Intn(3) == 0 {
+		ladderAt = r.Intn(n)
+	}
 	for i := 0; i < n; i++ {
 		tp := func() (string, int32) { return topics[r.Intn(2)], int32(r.Intn(2)) }
+		if i == ladderAt {
+			// epoch ladder: everything consumed in one leader epoch, the leader moves, records of the next epoch are buffered and
+			// only partly taken, then the leader moves again while the rest is still buffered
+			t, p := tp()
+			sc.Steps = append(sc.Steps,
+				Step{Op: "produce", P: 0, Topic: t, Part: p, N: 3}, Step{Op: "sleep", Ms: 60}, Step{Op: "poll", N: 0},
+				Step{Op: "fault", Fault: "moveleader", Topic: t, Part: p}, Step{Op: "sleep", Ms: 80},
+				Step{Op: "produce", P: 0, Topic: t, Part: p, N: 4}, Step{Op: "sleep", Ms: 80}, Step{Op: "poll", N: 1 + r.Intn(2)},
+				Step{Op: "fault", Fault: "moveleader", Topic: t, Part: p}, Step{Op: "refresh"}, Step{Op: "sleep", Ms: 120},
+				Step{Op: "poll", N: 0}, Step{Op: "sleep", Ms: 60}, Step{Op: "poll", N: 0})
+		}
 		switch x := r.Intn(24); {
 		case x < 9:
 			t, p := tp()
@@ -76,7 +91,11 @@ func gen(seed int64, tier string) Scenario {
 			t, p := tp()
 			sc.Steps = append(sc.Steps, Step{Op: "resume", Topic: t, Part: p, Whole: r.Intn(2) == 0})
 		case x < 22:
-			sc.Steps = append(sc.Steps, Step{Op: "sleep", Ms: 1 + r.Intn(80)})
+			if r.Intn(3) == 0 {
+				sc.Steps = append(sc.Steps, Step{Op: "refresh"})
+			} else {
+				sc.Steps = append(sc.Steps, Step{Op: "sleep", Ms: 1 + r.Intn(80)})
+			}
 		default:
 			t, p := tp()
 			sc.Steps = append(sc.Steps, Step{Op: "fault", Fault: []string{"killfetch", "sesserr", "moveleader", "stall", "retriable"}[r.Intn(5)], Topic: t, Part: p, Ms: 20 + r.Intn(100)})
@@ -297,6 +316,8 @@ func runScenario(t *testing.T, rec *sim.Recorder, sc Scenario) {
 				}
 			case "sleep":
 				time.Sleep(time.Duration(st.Ms) * time.Millisecond)
+			case "refresh":
+				cons.ForceMetadataRefresh()
 			case "fault":
 				rec.Ev("fault", "fault", st.Fault)
 				switch st.Fault {
